@@ -647,8 +647,8 @@ Qed.
 
 Lemma styled_lines_spec ls : forall st i_pos,
   Forall (fun l => nl_last l = true) ls -> carry_ws st ->
-  WrappedW (concat ls) (concat (fst (styled_lines st i_pos ls))) /\
-  carry_ws (snd (styled_lines st i_pos ls)).
+  WrappedW (concat ls) (concat (fst (fst (styled_lines st i_pos ls)))) /\
+  carry_ws (snd (fst (styled_lines st i_pos ls))).
 Proof.
   induction ls as [|line rest IH]; intros st i_pos HF Hc.
   - cbn [WrapModel.styled_lines fst snd concat]. split; [constructor|exact Hc].
@@ -662,8 +662,8 @@ Proof.
       apply wrap_words_wrapped; [exact G|].
       intros c w n r _ E. exact (carry_of_ws st1 _ c Hc1 E). }
     destruct (wrap_words st1 (find_words line)) as [out st2]. cbn [fst snd] in *.
-    destruct (IH st2 true HF' Hc2) as [H1 H2].
-    destruct (styled_lines st2 true rest) as [outs st3]. cbn [fst snd concat] in *.
+    destruct (IH st2 (ends_with_nl line) HF' Hc2) as [H1 H2].
+    destruct (styled_lines st2 (ends_with_nl line) rest) as [[outs st3] a3]. cbn [fst snd concat] in *.
     split; [|exact H2]. rewrite concat_app. apply WrappedP_app; assumption.
 Qed.
 
@@ -671,14 +671,14 @@ Qed.
 Definition piece_rel (seg o : bool * list N) : Prop :=
   fst o = fst seg /\ (if fst seg then WrappedW (snd seg) (snd o) else snd o = snd seg).
 
-Lemma styled_pieces_spec segs : forall st, carry_ws st -> Forall2 piece_rel segs (styled_pieces st segs).
+Lemma styled_pieces_spec segs : forall st a, carry_ws st -> Forall2 piece_rel segs (styled_pieces st a segs).
 Proof.
-  induction segs as [|[b content] rest IH]; intros st Hc; cbn [WrapModel.styled_pieces].
+  induction segs as [|[b content] rest IH]; intros st a Hc; cbn [WrapModel.styled_pieces].
   - constructor.
   - destruct b.
-    + pose proof (styled_lines_spec (split_inclusive content) st false
+    + pose proof (styled_lines_spec (split_inclusive content) st a
                     (split_inclusive_nl_last content) Hc) as [H1 H2].
-      destruct (styled_lines st false (split_inclusive content)) as [out st'].
+      destruct (styled_lines st a (split_inclusive content)) as [[out st'] a'].
       cbn [fst snd] in *. constructor; [|apply IH; exact H2].
       split; [reflexivity|]. cbn [fst snd]. rewrite split_inclusive_concat in H1. exact H1.
     + constructor; [split; reflexivity|apply IH; exact Hc].
@@ -687,7 +687,7 @@ Qed.
 Theorem styled_wrap_spec segs hard :
   exists out, Forall2 piece_rel segs out /\ styled_wrap segs hard = trim_end (concat (map snd out)).
 Proof.
-  exists (styled_pieces (lw_new hard) segs). split; [|reflexivity].
+  exists (styled_pieces (lw_new hard) false segs). split; [|reflexivity].
   apply styled_pieces_spec. exact I.
 Qed.
 
@@ -1105,9 +1105,11 @@ Qed.
     line breaks ("\n" ESC[1m " a" at width 0 gives "\n" ESC[1m "\n\na").  The plain-text relation
     ([Wrapped], indent without newline) therefore does not hold for styled text; [WrappedW] does. *)
 Lemma styled_stale_carryover_witness :
-  styled_wrap w1 utf8_len_std [(true, [10]); (false, [27; 91; 49; 109]); (true, [32; 97])] 0
-  = [10; 27; 91; 49; 109; 10; 10; 97].
-Proof. vm_compute. reflexivity. Qed.
+  styled_wrap_before_fix w1 utf8_len_std [(true, [10]); (false, [27; 91; 49; 109]); (true, [32; 97])] 0
+  = [10; 27; 91; 49; 109; 10; 10; 97]
+  /\ styled_wrap w1 utf8_len_std [(true, [10]); (false, [27; 91; 49; 109]); (true, [32; 97])] 0
+  = [10; 27; 91; 49; 109; 10; 32; 97].
+Proof. split; vm_compute; reflexivity. Qed.
 
 (** hypotheses of the theorems are satisfiable / sanity examples (the textwrap unit tests) *)
 Example wrap_simple : WrapModel.wrap w1 utf8_len_std [102;111;111;32;98;97;114;32;98;97;122] 5
